@@ -298,7 +298,7 @@ class C18(Prop):
                         'schedule': [1]}
             return {'calls': calls, 'fresh_grammars': draw(st.integers(0, 5)) == 0, 'pristine': draw(st.integers(0, 2)) == 0,
                     'stress': tier == 'thorough' and draw(st.integers(0, 3)) == 0,
-                    'cold': draw(st.sampled_from([None] * 8 + ['sequential', 'threaded'])),
+                    'cold': draw(st.sampled_from([None] * 8 + ['sequential', 'threaded', 'aborted-first'])),
                     'schedule': draw(st.lists(st.integers(1, 120), min_size=8, max_size=60))}
         return case()
 
@@ -425,7 +425,10 @@ class C18(Prop):
             try:
                 r = subprocess.run([sys.executable, '-m', 'vf.coldrun'], cwd=VERIF, capture_output=True, timeout=300,
                                    input=json.dumps({'calls': calls, 'schedule': case['schedule'],
-                                                     'threaded': case['cold'] == 'threaded'}).encode('utf-8'),
+                                                     'threaded': case['cold'] == 'threaded',
+                                                     # (log-uniform over 10 .. 250 000 lines: one-time initialisation is a thin slice early in the first call)
+                                                     'abort_first': (int(10 ** (1 + (case['schedule'][0] % 45) / 10.0)) + case['schedule'][1]
+                                                                     if case['cold'] == 'aborted-first' else None)}).encode('utf-8'),
                                    env=dict(os.environ, VERIF_REPO=REPO, PYTHONHASHSEED='0'))
                 cold = json.loads(r.stdout.decode('utf-8')) if r.returncode == 0 and r.stdout else None
             except (subprocess.TimeoutExpired, ValueError):
